@@ -51,6 +51,25 @@ class ContractSet:
         self.lemmas = dict(getattr(mod, "LEMMAS", {}))
         self.spec_funcs = {n: f for n, f in self.spec_mod.funcs.items() if "." not in n}
         self._parsed = {}
+        # INCLUDE = ["C15"]: classes, spec functions and (as assumed, verified under their own property) function contracts
+        # of other contract files
+        self.included = []
+        for other in getattr(mod, "INCLUDE", []):
+            o = ContractSet(os.path.join(VERIF, "contracts", "%s.py" % other), root)
+            self.included.append(o)
+            for name, c in o.classes.items():
+                self.classes.setdefault(name, c)
+            for name, f in o.spec_funcs.items():
+                self.spec_funcs.setdefault(name, f)
+            for name, g in o.spec_mod.globals.items():
+                self.spec_mod.globals.setdefault(name, g)
+            for key, c in o.functions.items():
+                if key not in self.functions:
+                    c2 = dict(c)
+                    c2["assumed"] = True
+                    c2["verified_under"] = other
+                    self.functions[key] = c2
+            self.native_only |= o.native_only
 
     def parse_expr(self, text):
         if text not in self._parsed:
